@@ -69,9 +69,33 @@ func diffWordsToRunes(doc *indexedDocument, start, end int) []rune {
 	runes := make([]rune, 0, end-start)
 
 	for _, t := range doc.Tokens[start:end] {
-		runes = append(runes, rune(t.ID))
+		runes = append(runes, tokenRune(t.ID))
 	}
 	return runes
+}
+
+// go-diff converts the rune slices it is given to strings and back. That
+// conversion replaces every rune in the surrogate range by U+FFFD, which would
+// make all words with such identifiers compare equal, so token identifiers are
+// mapped to runes around that range.
+const (
+	surrogateMin  = 0xD800
+	surrogateSize = 0x800
+)
+
+func tokenRune(id tokenID) rune {
+	r := rune(id)
+	if r >= surrogateMin {
+		r += surrogateSize
+	}
+	return r
+}
+
+func runeToken(r rune) tokenID {
+	if r >= surrogateMin+surrogateSize {
+		r -= surrogateSize
+	}
+	return tokenID(r)
 }
 
 // diffRunesToWords rehydrates the text in a diff from a string of word hashes to real words of text.
@@ -82,7 +106,7 @@ func diffRunesToWords(diffs []diffmatchpatch.Diff, dict *dictionary) []diffmatch
 		var sb strings.Builder
 
 		for i, r := range chars {
-			sb.WriteString(dict.getWord(tokenID(r)))
+			sb.WriteString(dict.getWord(runeToken(r)))
 			if (i + 1) < len(chars) {
 				sb.WriteByte(' ')
 			}
